@@ -36,3 +36,10 @@ Example C08_nonvacuous :
   murmur3_py [1;2;3;200;250;6;7;8;9;10;11;12;13;14;15;16;17;255;128] = Ok 5339654602748896185 /\
   murmur3_token [1;2;3;200;250;6;7;8;9;10;11;12;13;14;15;16;17;255;128] = 5339654602748896185.
 Proof. split; vm_compute; reflexivity. Qed.
+
+(* the MIN_LONG branch is reachable: this 16-byte key (uuid dfe76f52-023f-ad4c-82b8-61c2c65c7a6b) hashes to
+   Long.MIN_VALUE, and its token is Long.MAX_VALUE *)
+Example C08_min_long_reached :
+  murmur3_long [223; 231; 111; 82; 2; 63; 173; 76; 130; 184; 97; 194; 198; 92; 122; 107] = - 2 ^ 63 /\
+  murmur3_token [223; 231; 111; 82; 2; 63; 173; 76; 130; 184; 97; 194; 198; 92; 122; 107] = 2 ^ 63 - 1.
+Proof. split; vm_compute; reflexivity. Qed.
